@@ -180,6 +180,22 @@ func genAtomicConsts() error {
 		items = append(items, fmt.Sprintf("(%q, %q)", m[0], m[1]))
 	}
 	fmt.Fprintf(&sb, "Definition all_tx_methods : list (string * string) :=\n  [%s].\n", strings.Join(items, ";\n   "))
+	pubs, subsc, err := publishSites()
+	if err != nil {
+		return err
+	}
+	sb.WriteString("(* every md.Publish call under go/consensus/cometbft/apps: (app, enclosing function, message kind) *)\n")
+	items = nil
+	for _, p := range pubs {
+		items = append(items, fmt.Sprintf("(%q, %q, %q)", p[0], p[1], p[2]))
+	}
+	fmt.Fprintf(&sb, "Definition all_publishes : list (string * string * string) :=\n  [%s].\n", strings.Join(items, ";\n   "))
+	sb.WriteString("(* every md.Subscribe call: (message kind, subscribing app) *)\n")
+	items = nil
+	for _, p := range subsc {
+		items = append(items, fmt.Sprintf("(%q, %q)", p[0], p[1]))
+	}
+	fmt.Fprintf(&sb, "Definition all_subscriptions : list (string * string) :=\n  [%s].\n", strings.Join(items, ";\n   "))
 	writeIfChanged("AtomicConsts.v", []byte(sb.String()))
 	return nil
 }
@@ -249,4 +265,63 @@ func txMethods() ([][2]string, error) {
 	})
 	sort.Slice(out, func(i, j int) bool { return out[i][0] < out[j][0] })
 	return out, err
+}
+
+// publishSites enumerates every md.Publish call (app, enclosing function, message kind) and every
+// md.Subscribe call (message kind, subscribing app) under go/consensus/cometbft/apps.
+func publishSites() (pubs [][3]string, subsc [][2]string, err error) {
+	root := filepath.Join(repo, "go/consensus/cometbft/apps")
+	err = filepath.Walk(root, func(path string, info os.FileInfo, err error) error {
+		if err != nil || info.IsDir() || !strings.HasSuffix(path, ".go") || strings.HasSuffix(path, "_test.go") {
+			return err
+		}
+		rel, _ := filepath.Rel(root, filepath.Dir(path))
+		f, err := parser.ParseFile(token.NewFileSet(), path, nil, 0)
+		if err != nil {
+			return err
+		}
+		for _, d := range f.Decls {
+			fd, ok := d.(*ast.FuncDecl)
+			if !ok || fd.Body == nil {
+				continue
+			}
+			ast.Inspect(fd.Body, func(n ast.Node) bool {
+				c, ok := n.(*ast.CallExpr)
+				if !ok {
+					return true
+				}
+				recv, name := selName(c.Fun)
+				kindOf := func(e ast.Expr) string {
+					if se, ok := e.(*ast.SelectorExpr); ok {
+						return se.Sel.Name
+					}
+					if id, ok := e.(*ast.Ident); ok {
+						return id.Name
+					}
+					return "?"
+				}
+				if recv == "md" && name == "Publish" && len(c.Args) == 2 {
+					kind := "?"
+					if cl, ok := c.Args[1].(*ast.CompositeLit); ok {
+						for _, el := range cl.Elts {
+							if kv, ok := el.(*ast.KeyValueExpr); ok {
+								if k, ok := kv.Key.(*ast.Ident); ok && k.Name == "Kind" {
+									kind = kindOf(kv.Value)
+								}
+							}
+						}
+					}
+					pubs = append(pubs, [3]string{rel, fd.Name.Name, kind})
+				}
+				if recv == "md" && name == "Subscribe" && len(c.Args) == 2 {
+					subsc = append(subsc, [2]string{kindOf(c.Args[0]), rel})
+				}
+				return true
+			})
+		}
+		return nil
+	})
+	sort.Slice(pubs, func(i, j int) bool { return fmt.Sprint(pubs[i]) < fmt.Sprint(pubs[j]) })
+	sort.Slice(subsc, func(i, j int) bool { return fmt.Sprint(subsc[i]) < fmt.Sprint(subsc[j]) })
+	return
 }
